@@ -113,6 +113,11 @@ def judge(chk, c, obs, dropped):
             elif streams.get(i, (got,))[0] != got:
                 chk.violation("operand-dependent", "hash input differs between two equal values\n%s" % c.text, files)
                 return
+        elif op == "hslice":
+            if res[0] != "1":
+                chk.violation("slice-of-values", "a slice of two values does not feed the length and then the two values one after the other\n"
+                              "observed = %s\nexpected = %s\n%s" % (res[1], res[2], c.text), files)
+                return
         elif op == "eq":
             eqt[(i, j)] = res[0] == "1"
     if len(streams) != n:
@@ -153,6 +158,23 @@ def judge(chk, c, obs, dropped):
                     "streams": [{"value": c.vals[i], "recorded": streams[i][0]} for i in range(min(3, n))]}, limit=3)
 
 
+def wide_cases():
+    from .. import harness as H
+    out = []
+    tys = ", ".join(["pub u8"] * 104)
+    vals = ", ".join(str(i) for i in range(104))
+    for cid, text, ctor in (
+            ("xs", "#[derive(::educe::Educe)]\n#[educe(Hash)]\npub struct Ty(%s);\n" % tys, "Ty(%s)" % vals),
+            ("xe", "#[derive(::educe::Educe)]\n#[educe(Hash)]\npub enum Ty {\n    W,\n    V(%s),\n}\n" % tys.replace("pub ", ""), "Ty::V(%s)" % vals),
+            ("xm", "#[derive(::educe::Educe)]\n#[educe(Hash)]\npub enum Ty {\n    V(%s),\n}\n" % ", ".join(
+                ["#[educe(Hash(method(%shash_u8_plain)))] u8" % RT if i % 7 == 3 else "u8" for i in range(104)]), "Ty::V(%s)" % vals)):
+        drive = "        let x = %s;\n        %sbegin(); %sobs(\"%s\", \"wide\", 0, -1, &%sflat_hash(&x));" % (ctor, RT, RT, cid, RT)
+        c = BH.Case(cid, None, text, [], drive=drive, info={})
+        c.module = lambda c=c: H.module(c.cid, c.text + "pub fn run() {\n    %sguarded(\"%s\", || {\n%s\n    });\n}\n" % (RT, c.cid, c.drive))
+        out.append(c)
+    return out
+
+
 def main(tier, seed, scale=1.0):
     chk = Check(PROP, tier, seed)
     n = int((960 if tier == "quick" else 30000) * scale)
@@ -171,6 +193,23 @@ def main(tier, seed, scale=1.0):
             log("C05: binary %s exited with %s: %s" % (b, rc, err[-500:]))
         for c in cases:
             judge(chk, c, obs, dropped)
+    # positions beyond 9 and beyond 99: a tuple struct and a tuple variant with 104 fields are fed in declaration order
+    wide = wide_cases()
+    obs, dropped, crashed, _, _ = BH.execute("c05x", wide)
+    for c in wide:
+        o = obs.get(c.cid)
+        if c.cid in dropped or o is None or not o.recs:
+            chk.inconc("wide-not-run")
+            continue
+        chk.evaluations += 1
+        got = o.recs[0][3][0]
+        want = "".join("%02x" % i for i in range(104))
+        if not got.endswith(want):
+            chk.violation("field-records|wide-tuple", "the 104 fields are not fed in declaration order\nobserved = %s\nexpected suffix = %s\n%s"
+                          % (got, want, c.text[:300]), {"case.rs": c.module()})
+            continue
+        chk.held("wide:" + c.cid, True, 1)
+        chk.count("wide-tuple")
     # differential family: parameter-free requests over std field types against std's derives
     tw = TW.cases(seed, PROP, max(40, n // 4), "hash")
     obs, dropped, crashed, _, _ = BH.execute("c05w", tw)
